@@ -19,6 +19,8 @@ Tie    = (1) the environment compiled into the driver is compared, entry by
          (5) `any`: Any.cast_in / cast_out (and SequenceOfAny's) for every type,
              every atomic class and every (object type, property) datatype inside
              ReadPropertyACK / WriteProperty / COV notification / RPM ack.
+         (6) `mutate`: encode, ONE schema-valid modification in place, encode the
+             same object again == a fresh object with the new value == the model.
 Oracle = on the implementation alone: decode(encode(v)) == v as canonical value
          trees built by walking the class tables (not dict_contents), nothing
          left over, re-encoding gives the identical octets, octets parse back
@@ -1221,6 +1223,219 @@ def shard_any(ctx, spec):
     run_any(ctx, drv, spec)
 
 
+# ------------------------------------------------------------------ the `mutate` stream: encode, modify IN PLACE, encode again
+
+def set_any_content(g, a):
+    """change what an Any holds through its own API: empty it, then cast_in"""
+    from bacpypes.primitivedata import TagList
+    from bacpypes.constructeddata import SequenceOfAny
+    a.tagList = TagList()
+    if isinstance(a, SequenceOfAny):          # takes ListOf instances only
+        lists = [n for n in g.sch.nodes if n.k == "list" and n.lk == "listof"]
+        if lists and g.rng.random() < 0.8:
+            a.cast_in(g.node_value(g.rng.choice(lists), 2))
+        return
+    for _ in range(g.rng.choice([0, 1, 1, 2])):
+        a.cast_in(g.atom())
+
+
+def modify(node, obj, g, depth=0):
+    """ONE schema-valid modification of the live object `obj` (an instance of the
+    class of `node`), in place; returns a label or None if nothing could be changed"""
+    rng = g.rng
+    if node.k == "any":
+        set_any_content(g, obj)
+        return "any-content"
+    if node.k == "seq":
+        if not node.fields:
+            return None
+        order = list(range(len(node.fields)))
+        rng.shuffle(order)
+        for i in order:
+            f = node.fields[i]
+            cur = getattr(obj, f.name, None)
+            if cur is None:                       # absent optional element: set it
+                setattr(obj, f.name, g.ref_value(f.ref, depth + 2))
+                return "set-optional"
+            if f.opt and rng.random() < 0.5:      # present optional element: clear it
+                setattr(obj, f.name, None)
+                return "clear-optional"
+            if f.ref.k != "ty":                   # atomic: another conforming value
+                for _ in range(6):
+                    new = g.ref_value(f.ref, depth + 2)
+                    if core.canon(ref_tree(f.ref, new)) != core.canon(ref_tree(f.ref, cur)):
+                        setattr(obj, f.name, new)
+                        return "replace-leaf"
+                continue
+            sub = f.ref.node
+            if sub.k == "list" and isinstance(cur, list):
+                if cur and rng.random() < 0.4:
+                    del cur[rng.randrange(len(cur))]
+                    return "list-remove"
+                cur.append(g.ref_value(sub.elem, depth + 2, in_list=True))
+                return "list-append"
+            if rng.random() < 0.7 and depth < 3:  # go inside the live sub-object
+                r = modify(sub, cur, g, depth + 1)
+                if r:
+                    return "nested/" + r
+            setattr(obj, f.name, g.ref_value(f.ref, depth + 2))
+            return "replace-structure"
+        return None
+    if node.k == "choice":
+        cur_i = None
+        for i, f in enumerate(node.fields):
+            if getattr(obj, f.name, None) is not None:
+                cur_i = i
+                break
+        if len(node.fields) > 1 and (cur_i is None or rng.random() < 0.6):
+            j = rng.choice([i for i in range(len(node.fields)) if i != cur_i])
+            if cur_i is not None:
+                setattr(obj, node.fields[cur_i].name, None)
+            setattr(obj, node.fields[j].name, g.ref_value(node.fields[j].ref, depth + 2))
+            return "change-alternative"
+        f = node.fields[cur_i]
+        cur = getattr(obj, f.name)
+        if f.ref.k == "ty" and not isinstance(cur, list) and depth < 3:
+            r = modify(f.ref.node, cur, g, depth + 1)
+            if r:
+                return "nested/" + r
+        setattr(obj, f.name, g.ref_value(f.ref, depth + 2))
+        return "replace-alternative-value"
+    if node.k == "list":
+        from bacpypes import constructeddata as cd
+        new = g.ref_value(node.elem, depth + 2, in_list=True)
+        if isinstance(obj, cd.Array):
+            n = obj.value[0]
+            if node.fixed is not None:
+                if n == 0:
+                    return None
+                obj[rng.randrange(1, n + 1)] = new
+                return "array-set"
+            if n and rng.random() < 0.4:
+                del obj[rng.randrange(1, n + 1)]
+                return "array-remove"
+            obj.append(new)
+            return "array-append"
+        if obj.value and rng.random() < 0.4:
+            del obj.value[rng.randrange(len(obj.value))]
+            return "list-remove"
+        obj.value.append(new)
+        return "list-append"
+    if node.k == "nameValue":
+        which = rng.randrange(3)
+        obj.value = None if (which == 0 and obj.value is not None) else \
+            g.atom() if which <= 1 else g.node_value(node.dt.node, depth + 2)
+        return "namevalue-value"
+    return None
+
+
+def mutate_case(ctx, node, g, reqs, start):
+    """start = "new": a generated object; "decoded": the object decode() built from its
+    octets; "decoded+encoded": that object after it has been encoded once more"""
+    obj = g.node_value(node, 0)
+    case = {"mutate": start, "type": node.name, "t": node.idx}
+    try:
+        v0 = tree(node, obj)
+        hex1 = impl_encode(node, obj)["hex"]
+        if start != "new":
+            from bacpypes.primitivedata import TagList
+            from bacpypes.pdu import PDUData
+            tl = TagList()
+            tl.decode(PDUData(bytes.fromhex(hex1)))
+            obj = impl_decode(node, [jtag(t) for t in tl.tagList], node.apci)[1]
+            # (impl_decode already re-encodes the decoded object: "decoded+encoded")
+            if start == "decoded":
+                obj = node.cls()
+                if node.apci:
+                    from bacpypes.apdu import APDU
+                    apdu = APDU()
+                    apdu.pduData = bytearray(bytes.fromhex(hex1))
+                    obj.decode(apdu)
+                else:
+                    obj.decode(TagList([mktag(jtag(t)) for t in tl.tagList]))
+        what = modify(node, obj, g)
+        if what is None:
+            return
+        case["modification"] = what
+        v1 = tree(node, obj)
+        case["before"], case["v"] = v0, v1
+        hex2 = impl_encode(node, obj)["hex"]                       # the SAME object again
+        hexf = impl_encode(node, obj_from_tree(node, v1))["hex"]   # a FRESH object with the new value
+    except core.Infra:
+        raise
+    except Exception as e:
+        ctx.fail("mutate-raises", case, "%s (%s): %s: %s" % (node.name, case.get("modification"),
+                                                            type(e).__name__, e), type=node.name)
+        return
+    if hex2 != hexf:
+        ctx.fail("mutate-stale", dict(case, first=hex1, again=hex2, fresh=hexf),
+                 "%s encoded, modified (%s) and encoded again gives %s, a fresh object with the same value gives %s"
+                 % (node.name, what, hex2 or "(nothing)", hexf or "(nothing)"), type=node.name, modification=what)
+        return
+    reqs.append(({"op": "enc", "t": node.idx, "v": v1},
+                 {"r": "ok", "hex": hex2}, dict(case, sig="%s:%s" % (start, what.split("/")[-1]))))
+
+
+def replay_mutate(ctx, drv, case):
+    """re-run the recorded sequence: the value BEFORE, encode, then bring the SAME
+    object to the recorded value AFTER by assigning its elements, encode again"""
+    sch = schema()
+    node = [n for n in sch.nodes if n.name == case.get("type")]
+    if not node:
+        raise core.Infra("no type %r in the tree under test" % case.get("type"))
+    node = node[0]
+    if node.k not in ("seq", "choice"):
+        # lists / Any: rebuild through the generator path with the same modification kinds
+        rng = ctx.sub_rng("c03-mutate-replay")
+        g = Gen(rng, maxdepth=3)
+        reqs = []
+        for _ in range(200):
+            mutate_case(ctx, node, g, reqs, case.get("mutate", "new"))
+        for _ in reqs:
+            ctx.count("mutate")
+        return
+    obj = obj_from_tree(node, case["before"])
+    hex1 = impl_encode(node, obj)["hex"]
+    if case.get("mutate") != "new":
+        obj = impl_decode(node, impl_encode(node, obj)["tags"], node.apci)[1]
+    target = obj_from_tree(node, case["v"])
+    for f in node.fields:                    # element-wise assignment on the same object
+        setattr(obj, f.name, getattr(target, f.name, None))
+    hex2 = impl_encode(node, obj)["hex"]
+    hexf = impl_encode(node, obj_from_tree(node, case["v"]))["hex"]
+    ctx.count("mutate", (node.name, "replay"))
+    if hex2 != hexf:
+        ctx.fail("mutate-stale", dict(case, first=hex1, again=hex2, fresh=hexf),
+                 "%s encoded, modified and encoded again gives %s, a fresh object with the same value gives %s"
+                 % (node.name, hex2 or "(nothing)", hexf or "(nothing)"), type=node.name)
+    if drv:
+        m = drv.ask([{"op": "enc", "t": node.idx, "v": case["v"]}])[0]
+        ctx.compare_stream("mutate", [{"op": "enc", "t": node.idx, "v": case["v"]}], [{"r": "ok", "hex": hex2}],
+                           [{"r": m.get("r"), "hex": m.get("hex")}], sig=lambda c, m_: (node.name, "replay"))
+
+
+def shard_mutate(ctx, spec):
+    part, nparts, reps = spec
+    drv = core.Driver("drv_c03") if ctx.model_ok else None
+    sch = schema()
+    rng = ctx.sub_rng("c03-mutate/%d" % part)
+    g = Gen(rng, maxdepth=3)
+    reqs = []
+    for node in sch.nodes[part::nparts]:
+        for _ in range(reps):
+            for start in ("new", "decoded", "decoded+encoded"):
+                mutate_case(ctx, node, g, reqs, start)
+    if drv and reqs:
+        model = [{"r": m.get("r"), "hex": m.get("hex")} if m.get("r") == "ok" else m
+                 for m in drv.ask([r for r, _a, _c in reqs])]
+        ctx.compare_stream("mutate", [dict(r, type=c["type"], sig=c["sig"]) for r, _a, c in reqs],
+                           [a for _r, a, _c in reqs], model,
+                           sig=lambda c, m: (c["type"], c["sig"], m.get("k") or "ok"))
+    else:
+        for r, _a, c in reqs:
+            ctx.count("mutate", (c["type"], c["sig"]))
+
+
 # ------------------------------------------------------------------ synthetic schemas
 
 def synthetic_classes():
@@ -1418,7 +1633,7 @@ def run_corpus(ctx, drv):
             replay_case(ctx, drv, json.load(open(os.path.join(d, fn))), "corpus:" + fn)
 
 
-def obj_from_tree(node, v, as_attr=False):
+def obj_from_tree(node, v, as_attr=False, cls=None):
     """rebuild a live object from a canonical value tree (corpus / replay)"""
     from bacpypes.primitivedata import Tag, TagList
     from bacpypes.constructeddata import Any
@@ -1428,7 +1643,7 @@ def obj_from_tree(node, v, as_attr=False):
             return ref.cls(Tag(0, ref.app, x["p"][0], bytes.fromhex(x["p"][1]))).value
         if ref.k == "anyAtomic":
             return Tag(0, x["a"][0], x["a"][1], bytes.fromhex(x["a"][2])).app_to_object()
-        return obj_from_tree(ref.node, x, as_attr=not in_list)
+        return obj_from_tree(ref.node, x, as_attr=not in_list, cls=ref.cls)
     if node.k == "seq":
         obj = node.cls()
         for f, x in zip(node.fields, v["seq"]):
@@ -1441,7 +1656,7 @@ def obj_from_tree(node, v, as_attr=False):
         items = [of_ref(node.elem, x, in_list=True) for x in v["list"]]
         return items if (as_attr and node.lk in ("seqof", "listof")) else node.cls(items)
     if node.k == "any":
-        a = Any()
+        a = (cls or Any)()
         a.tagList = TagList([mktag(t) for t in v["tags"]])
         return a
     if node.k == "nameValue":
@@ -1460,6 +1675,8 @@ def replay_case(ctx, drv, case, label):
         return run_annex_f(ctx, drv)
     if "any" in case:
         return replay_any(ctx, drv, case)
+    if "mutate" in case:
+        return replay_mutate(ctx, drv, case)
     node = None
     for n in sch.nodes:
         if n.name == case.get("type"):
@@ -1507,6 +1724,8 @@ def run(ctx):
     run_annex_f(ctx, drv)
     census_nonfamily(ctx, 6 if ctx.quick else 60)
     run_synthetic(ctx, drv)
+    core.run_shards(ctx, "harness.c03", "shard_mutate",
+                    [(k, 16, 2 if ctx.quick else 40) for k in range(16)])
     typed, skipped = typed_any_targets(sch)
     ctx.extra["any_stream"] = {"object_property_datatypes": len(typed),
                                "distinct_datatype_classes": len(set(t[1].cls for t in typed)),
